@@ -285,7 +285,9 @@ Inductive setter :=
 | SDumpEnable (es : list bedit)          (* o := c.getDumpOptions(); edits; c.EnableDumpAll(): EnableDumpAllTo, ...Async, ...WithoutX *)
 | SDumpDisable                           (* DisableDumpAll *)
 | SDumpSetOpts (l : list val)            (* SetCommonDumpOptions(a fresh *DumpOptions with an explicit Output) *)
-| SDumpTransport (l : list val).         (* c.GetTransport().EnableDump(a fresh *DumpOptions): a Dumper with options of its own *)
+| SDumpTransport (l : list val)         (* c.GetTransport().EnableDump(a fresh *DumpOptions): a Dumper with options of its own *)
+| SMapTouch (f : nat)                    (* the map is made without an entry: SetCommonPathParams(map[string]string{}), SetCommonQueryParams / SetCommonFormData with an empty map *)
+| SJarNil.                               (* SetCookieJar(nil): no jar and no factory - cookies switched off, also for later clones *)
 
 (* c.getRetryOption(): lazily allocate the default record *)
 Definition get_retry (H : heap) (o : obj) : heap * obj * nat :=
@@ -398,6 +400,12 @@ Definition apply_setter (grow : nat -> nat -> nat) (H : heap) (o : obj) (s : set
       (with_jars H (jars H ++ [l]), set_ext o (set_dumper (set_dopt (o_ext o) (Some a)) d))
   | SDumpTransport l =>
       (with_jars H (jars H ++ [l]), set_ext o (set_dumper (o_ext o) (Some (length (jars H)))))
+  | SMapTouch f =>
+      match nth f (o_mp o) None with
+      | Some _ => (H, o)
+      | None => (with_maps H (maps H ++ [[]]), set_mp o (upd_nth f (Some (length (maps H))) (o_mp o)))
+      end
+  | SJarNil => (H, set_jar o None false)
   end.
 
 (* ---------- Clone ---------- *)
@@ -747,6 +755,8 @@ Definition vapply (o : vobj) (s : setter) : vobj :=
   | SDumpSetOpts l =>
       vset_ext o (xset_dumper (xset_dopt (v_ext o) (Some l)) (match x_dumper (v_ext o) with DOff => DOff | _ => DLinked end))
   | SDumpTransport l => vset_ext o (xset_dumper (v_ext o) (DOwn l))
+  | SMapTouch f => vset_mp o (upd_nth f (nth f (v_mp o) []) (v_mp o))      (* no entry: reads as before *)
+  | SJarNil => vset_jar o None false
   end.
 
 (* deep copy; the wrapper chains are rebuilt from the wrapper lists; a factory jar starts empty *)
